@@ -113,7 +113,13 @@ func Unique(in []string) []string {
 // Unflatten map entries into new map.
 func Unflatten(in map[string]interface{}) map[string]interface{} {
 	res := make(map[string]interface{})
-	for k, v := range in {
+	keys := make([]string, 0, len(in))
+	for k := range in {
+		keys = append(keys, k)
+	}
+	slices.Sort(keys)
+	for _, k := range keys {
+		v := in[k]
 		current := res
 		pc := strings.Split(k, ".")
 		for _, c := range pc[0 : len(pc)-1] {
